@@ -248,7 +248,16 @@ Example C08_float_residue_mono :
      Ok (VT 0x1.9999999999999p-1%float); Ok (VT 0x1.9999999999998p-1%float)].
 Proof. vm_compute. reflexivity. Qed.
 
-(* outside the property, recorded because the model is faithful to it:
-   MonoTimer.remaining evaluates `self._stop - self.latest` left to right, so on
-   the read that detects a retrograde it uses the un-shifted _stop and reports
-   |delta| too much (9 instead of 2 in C08_example_mono above). *)
+(* Outside the property (it asks only monotonicity of MonoTimer), recorded
+   because the model is faithful to both:
+   1. MonoTimer.remaining evaluates `self._stop - self.latest` left to right, so
+      on the read that detects a retrograde it uses the un-shifted _stop and
+      reports |delta| too much (9 instead of 2 in C08_example_mono above).
+   2. start()/restart() are Timer's: they read time.time() directly and leave
+      _last alone, so a retrograde that happened since the last read is charged
+      to the new period: constructed at 100, start() when the clock says 90,
+      elapsed read at 90 reports 10 and a 5 s timer is expired at once. *)
+Example C08_note_mono_start_after_retrograde :
+  let '(s, c) := @m_init Z ZTime [100; 100; 90; 90; 90]%Z 5%Z None true in
+  m_obs s c [MStart None None; MRead RElapsed; MRead RExpired] = [Ok (VT 90%Z); Ok (VT 10%Z); Ok (VB true)].
+Proof. vm_compute. reflexivity. Qed.
